@@ -180,6 +180,19 @@ def key_agreement(ctx):
                             if isinstance(x, ast.Compare) and isinstance(x.ops[0], ast.In) and p.scope_key(r, x.left) == k:
                                 guarded = True
                 if not guarded:
+                    # ... or by an earlier ``if key not in scope: <leave>`` (a guard clause)
+                    rcfg = ctx.cfg(r)
+                    sn = rcfg.node_containing(n)
+                    for t in rcfg.nodes:
+                        if t.kind != 'test' or sn is None:
+                            continue
+                        for x in ast.walk(t.ast):
+                            if isinstance(x, ast.Compare) and len(x.ops) == 1 and isinstance(x.ops[0], (ast.In, ast.NotIn)) \
+                                    and p.scope_key(r, x.left) == k and x is t.ast:
+                                edge = 'true' if isinstance(x.ops[0], ast.In) else 'false'
+                                if sn in exclusive(rcfg, t, edge):
+                                    guarded = True
+                if not guarded:
                     need.setdefault(k, (r, n))
     ctx.require(len(need) >= 3, 'trace reader: fewer than 3 unconditional scope keys found (%s)' % sorted(need))
     u = ctx.unit('core._glom')
@@ -510,7 +523,13 @@ def formatting_invariants(ctx):
     # truncation: long values are cut to the width with a length suffix, never dropped
     tv = ctx.unit('core._format_trace_value')
     rets = [n for n in tv.own_nodes() if isinstance(n, ast.Return)]
-    ctx.ob(len(rets) == 1 and is_name(rets[0].value), tv, 'every value yields a line (truncated, never omitted)')
+    # every exit returns text derived from the rendering s (s itself, or a cut of it plus a suffix)
+    svars = {n.targets[0].id for n in tv.own_nodes() if isinstance(n, ast.Assign) and is_name(n.targets[0])
+             and any(isinstance(c, ast.Call) and is_name(c.func, 'bbrepr') for c in ast.walk(n.value))}
+    okr = len(rets) >= 1 and bool(svars) and all(
+        r.value is not None and not (isinstance(r.value, ast.Constant)) and any(is_name(x) and x.id in svars for x in ast.walk(r.value))
+        for r in rets)
+    ctx.ob(okr, tv, 'every value yields a line (truncated, never omitted)')
     # asking an arbitrary target for its length may fail in any way: the message must still render
     tcfg = ctx.cfg(tv)
     lens = [c for c in calls_in(tv) if is_name(c.func, 'len') and c.args and is_name(c.args[0], tv.params[0])]
@@ -720,4 +739,74 @@ def error_pushed_down_every_level(ctx):
             found += 1
             ctx.ob(True, u, 'adjacent levels are paired by zip(levels, levels[1:]): every pair', node=lp)
     ctx.require(found >= 1, '_unpack_stack: adjacent-level pass not found')
+    ctx.floor(1)
+
+
+@rule('C05.17')
+def message_templates_are_constant(ctx):
+    """MatchError renders ``bbformat(args[0], *args[1:])``: its first argument is a format
+    *template*.  A message assembled beforehand (f-string, %, .format) puts target / spec text
+    into the template position, where a brace in it (a regex ``\\d{4}``, a dict repr) is read as
+    a replacement field: the last line of the trace degrades to <exception str() failed>"""
+    p = ctx.program
+    mc = ctx.cls('matching.MatchError')
+    gm = mc.methods.get('get_message')
+    ctx.require(gm is not None, 'MatchError.get_message not found')
+    uses = [c for c in calls_in(gm) if is_name(c.func, 'bbformat')]
+    ctx.ob(len(uses) == 1, gm, 'MatchError formats its first argument as a template: %s' % [norm(c) for c in uses])
+    n = 0
+    for u in p.package_units():
+        for c in calls_in(u):
+            q = callee_qual(p, u, c)
+            if q != 'matching.MatchError' or not c.args:
+                continue
+            n += 1
+            a = c.args[0]
+
+            def safe_value(e):
+                return isinstance(e, ast.Attribute) and e.attr in ('__name__', '__qualname__')
+            if isinstance(a, ast.Constant) and isinstance(a.value, str):
+                ok = True
+            elif isinstance(a, ast.BinOp) and isinstance(a.op, ast.Mod) and isinstance(a.left, ast.Constant):
+                vals = a.right.elts if isinstance(a.right, ast.Tuple) else [a.right]
+                ok = all(safe_value(v) for v in vals)
+            elif isinstance(a, ast.JoinedStr):
+                ok = all(safe_value(v.value) for v in a.values if isinstance(v, ast.FormattedValue))
+            else:
+                ok = False
+            ctx.ob(ok, u, 'the template is a constant (values are passed as arguments): %s' % norm(a)[:60],
+                   '' if ok else 'target / spec text ends up in the template position', node=c)
+    ctx.require(n >= 10, 'MatchError constructions not found (%d)' % n)
+    ctx.floor(10)
+
+
+@rule('C05.19')
+def wrapped_errors_render_the_trace(ctx):
+    """the class GlomError.wrap() builds for a foreign exception must render through
+    GlomError.__str__ (which prints the target-spec trace).  With the original class first among
+    the bases, any class that defines its own __str__ -- KeyError, OSError, ImportError,
+    AttributeError on 3.12, most user exceptions -- wins the method lookup and the message is the
+    bare original text, without a trace"""
+    p = ctx.program
+    u = ctx.unit('core.GlomError.wrap')
+    cfg = ctx.cfg(u)
+    mk = [c for c in calls_in(u) if is_name(c.func, 'type') and len(c.args) == 3]
+    ctx.require(len(mk) == 1, 'wrap(): wrapper class construction type(name, bases, ns) not found')
+    node = cfg.node_containing(mk[0])
+    b = deref(cfg, node, mk[0].args[1])
+    ns = deref(cfg, node, mk[0].args[2])
+    own_str = isinstance(ns, ast.Dict) and any(isinstance(k, ast.Constant) and k.value == '__str__' for k in ns.keys)
+    leaves = [b.body, b.orelse] if isinstance(b, ast.IfExp) else [b]
+    n = 0
+    for e in leaves:
+        if not isinstance(e, ast.Tuple) or not e.elts:
+            ctx.ob(False, u, 'wrapper bases are a tuple display: %s' % norm(e), node=e)
+            continue
+        n += 1
+        first = e.elts[0]
+        ok = own_str or p.global_qualname(u, first) == 'core.GlomError' or is_name(first, u.params[0])
+        ctx.ob(ok, u, 'the wrapper renders through GlomError.__str__ (GlomError first among the bases %s, or its own __str__)' % norm(e),
+               '' if ok else 'a wrapped class with its own __str__ (KeyError, OSError, ImportError ...) prints its bare message: no target-spec trace',
+               node=e)
+    ctx.require(n >= 1, 'wrap(): bases not found')
     ctx.floor(1)
